@@ -331,7 +331,9 @@ def run(ctx):
         lines, checks = [], []
         v = " ".join("T" if flags[f] else "F" for f in ctl_db.FLAG_NAMES)
         for i in range(ctx.n(14, 120)):
-            repo = Repo(ctx, env, flags, rng, f"repo{i}")
+            repo = ctl_db.guarded(ctx, f"repo{i}", lambda i=i: Repo(ctx, env, flags, rng, f"repo{i}"))
+            if repo is None:
+                continue
             I = repo.case.I
             how = rng.choice(["sync", "sync", "file"])
             execs = all_execs(repo.path)
@@ -353,18 +355,33 @@ def run(ctx):
                 c2.run(0)
                 dst_before = ctl_db.dump_db(dst, I)
             dsrc = ctl_db.dump_db(repo.path, I)
-            n1 = do_transfer(env, repo.path, dst, roots_arg, how)
+            try:
+                n1 = do_transfer(env, repo.path, dst, roots_arg, how)
+            except Exception as e:  # noqa: BLE001
+                ctx.violation("C23-transfer-raises", "the transfer itself raised", label, expected="records transferred",
+                              actual=repr(e)[:300], kind="history")
+                ctx.case(key=None, sample=label, how=how, outcome="raised")
+                continue
             d1 = ctl_db.dump_db(dst, I)
             ids = closure(dsrc, [I.id(x) for x in roots])
             ok = compare_transfer(ctx, label, dsrc, d1, ids, dst_before)
             # once more: nothing may change
-            n2 = do_transfer(env, repo.path, dst, roots_arg, how)
+            try:
+                n2 = do_transfer(env, repo.path, dst, roots_arg, how)
+            except Exception as e:  # noqa: BLE001
+                ctx.violation(SIG["again"][0], "the second transfer of the same records raised", label,
+                              expected="no change", actual=repr(e)[:300], kind="history")
+                n2 = None
             d2 = ctl_db.dump_db(dst, I)
             if d2 != d1 or (n2 not in (None, 0)):
                 ctx.violation(SIG["again"][0], SIG["again"][1], dict(label, reported_new=n2),
                               expected="no change", actual=ctl_db.diff_dumps(d1, d2, ctl_db.MODEL_TABLES))
             # and back: the source must not change
-            do_transfer(env, dst, repo.path, None, how)
+            try:
+                do_transfer(env, dst, repo.path, None, how)
+            except Exception as e:  # noqa: BLE001
+                ctx.violation("C23-transfer-raises", "the transfer back raised", label, expected="records transferred",
+                              actual=repr(e)[:300], kind="history")
             dsrc2 = ctl_db.dump_db(repo.path, I)
             if dst_before is None and dsrc2 != dsrc:
                 ctx.violation("C23-transfer-back-changes-source", "transferring the records back changes the source",
